@@ -6,7 +6,7 @@ replay sets the position back to the start of the replayed token.
 """
 import ast
 
-from sa.model import AnalysisError, walk_no_nested, norm, call_name
+from sa.model import AnalysisError, walk_no_nested, norm, call_name, mangle
 from sa.util import const_value, contains
 from .proles import ParserRoles
 from .c02 import x2, funnel
@@ -27,11 +27,30 @@ def run(ctx):
     scan = R.scan
     cfg = ctx.cfg(scan)
 
-    # ---- Z1 ----------------------------------------------------------------------
+    # ---- Z1 / Z2 by evaluation ------------------------------------------------------
     ctx.rule("Z1", "no position write between the lexer loop head and the yield")
+    ctx.rule("Z2", "curlineno = 1 + #LF before pos ; curcolno = pos - index of last LF before pos")
+    try:
+        lev = lexer_eval(ctx, R)
+    except RecursionError:
+        lev = None
+    if lev is not None and lev[0] == "bad":
+        ctx.violation("Z2", scan, "model:lexer-position", "for the text %r: %s" % (lev[1], lev[2]), node=scan.node,
+                      witness="parse(%r): the error is reported at another place than the offending token" % (lev[1],))
+    elif lev is not None:
+        ctx.holds("Z1", "%s: at each of %d yields / lexical errors over %d sample texts (LF and CRLF, comments and multi-byte text before the "
+                  "token, a replayed `{`) the lexer's state describes the start of the current token" % (scan.qualname, lev[1], len(LEXER_SAMPLES)))
+        ctx.holds("Z2", "curlineno() / curcolno() interpreted in those %d states give the token's line and 1-based byte column" % lev[1])
     loops = [n for n in walk_no_nested(scan.node) if isinstance(n, ast.While)]
-    if len(loops) != 1:
+    if len(loops) != 1 and lev is None:
         raise AnalysisError("Z1", "Lexer.scan: expected one loop")
+    if lev is not None:
+        yields = [n for n in cfg.stmt_nodes() if isinstance(n.ast, ast.Expr) and isinstance(n.ast.value, (ast.Yield, ast.YieldFrom))]
+        return _after_z2(ctx, R, scan, loops, yields, lev if lev[0] == "ok" else None)
+    return _syntactic_z1_z2(ctx, R, scan, cfg, loops)
+
+
+def _syntactic_z1_z2(ctx, R, scan, cfg, loops):
     head = [n for n in cfg.nodes_for(loops[0]) if n.kind == "join"][0]
     yields = [n for n in cfg.stmt_nodes() if isinstance(n.ast, ast.Expr) and isinstance(n.ast.value, (ast.Yield, ast.YieldFrom))]
     if not yields:
@@ -55,7 +74,6 @@ def run(ctx):
             ctx.violation("Z1", scan, "yield-shape", "the lexer yields %s, not (rule name, matched text)" % norm(v), node=y.ast)
 
     # ---- Z2 ----------------------------------------------------------------------
-    ctx.rule("Z2", "curlineno = 1 + #LF before pos ; curcolno = pos - index of last LF before pos")
     ln = R.Lexer.methods.get("curlineno")
     col = R.Lexer.methods.get("curcolno")
     if ln is None or col is None:
@@ -180,6 +198,10 @@ def run(ctx):
                       % (norm(e) if e is not None else "<several statements>"), node=col.node,
                       witness="the reported column of an offending token is off (e.g. 0-based, or counted from the file start)")
 
+    return _after_z2(ctx, R, scan, loops, yields)
+
+
+def _after_z2(ctx, R, scan, loops, yields, lev=None):
     # ---- Z3 ----------------------------------------------------------------------
     ctx.rule("Z3", "error_pos = (curlineno(), curcolno(), len(<current token value>)); error text uses the same line")
     tr, caught = funnel(ctx, R, "Z3")
@@ -188,7 +210,23 @@ def run(ctx):
         raise AnalysisError("Z3", "token loop not found")
     tgt = fors[0].target
     tval = tgt.elts[1].id if isinstance(tgt, ast.Tuple) and len(tgt.elts) == 2 and isinstance(tgt.elts[1], ast.Name) else None
+    holders_read = set()
     for h in tr.handlers:
+        hev = None
+        if lev is not None:
+            try:
+                hev = handler_eval(ctx, R, h, fors, lev)
+            except RecursionError:
+                hev = None
+        if hev is not None and hev[0] == "bad":
+            ctx.violation("Z3", R.parse, "model:error-pos", hev[1], node=h, witness="line/column/length of the reported position do not describe the "
+                          "offending token")
+            continue
+        if hev is not None:
+            ctx.holds("Z3", "handler `except %s`: in %d (text, lexer state, current token) moments error_pos is the token's (line, 1-based byte "
+                      "column, byte length) and the error text names that line" % (norm(h.type)[:40] if h.type is not None else "", hev[1]))
+            holders_read |= {x.attr for x in ast.walk(h) if isinstance(x, ast.Attribute) and x.attr in token_holders(fors[0], tval)}
+            continue
         poss = [a for a in walk_no_nested(h) if isinstance(a, ast.Assign) and any(isinstance(t, ast.Attribute) and t.attr == "error_pos" for t in a.targets)]
         if len(poss) != 1 or not isinstance(poss[0].value, ast.Tuple) or len(poss[0].value.elts) != 3:
             ctx.violation("Z3", R.parse, "error-pos-shape", "error_pos is not assigned a (line, column, length) triple in the handler", node=h)
@@ -229,6 +267,37 @@ def run(ctx):
         # the position is read before anything in the handler could move it
         if poss and errs and poss[0].lineno > errs[0].lineno:
             ctx.violation("Z3", R.parse, "error-before-pos", "the error text is built before error_pos is computed", node=errs[0])
+    # an attribute standing for the current token in the handler is the current token whenever something can be raised
+    if holders_read:
+        pcfg = ctx.cfg(R.parse)
+        hold = token_holders(fors[0], tval)
+        quiet = ("print", "debug", "log", "len", "isinstance", "str", "bytes", "strip", "decode", "format", "join")
+        for a in sorted(holders_read):
+            sets = [x for st_ in hold[a] for x in pcfg.nodes_for(st_)]
+            bad = None
+            for x in pcfg.stmt_nodes():
+                if x.ast is None or not contains(fors[0], x.ast) or x in sets or x.ast is fors[0]:
+                    continue
+                risky = isinstance(x.ast, ast.Raise) or any(isinstance(c, ast.Call) and not any(q in (call_name(c) or "") for q in quiet)
+                                                              for c in ast.walk(x.ast) if not isinstance(x.ast, (ast.For, ast.While, ast.If, ast.Try)))
+                if risky and not pcfg.guarded(x, lambda f: False, kill_pred=lambda m: m.ast is fors[0], establish=lambda m: m in sets, exc=True):
+                    bad = x
+                    break
+            if bad is None:
+                ctx.holds("Z3", "self.%s is set to the current token before anything in the iteration can raise" % a)
+            else:
+                ctx.violation("Z3", R.parse, "token-holder-stale:%s" % a, "the handler takes the token length from self.%s, which still holds the "
+                              "PREVIOUS token when %s raises" % (a, norm(bad.ast)[:60]), node=bad.ast,
+                              witness="a surplus argument is reported with the length of the token before it")
+            ini = [x for f_ in (R.reset, R.Parser.methods.get("__init__")) if f_ is not None for x in walk_no_nested(f_.node)
+                   if isinstance(x, ast.Assign) and any(isinstance(t, ast.Attribute) and t.attr == a for t in x.targets)
+                   and const_value(ctx.program, f_, x.value) == b""]
+            if ini:
+                ctx.holds("Z3", "self.%s is b'' before the first token" % a)
+            else:
+                ctx.violation("Z3", R.parse, "token-value-undefined", "self.%s is not initialised to b'' before the token loop: a lexical error on "
+                              "the first token makes the handler fail" % a, node=fors[0])
+        return _z4(ctx, R, scan, loops, yields, fors)
     # the token value is defined before the loop (lexical errors are raised before the first assignment)
     pre = [a for a in walk_no_nested(R.parse.node) if isinstance(a, (ast.Assign, ast.AnnAssign)) and a.lineno < fors[0].lineno and any(
         isinstance(t, ast.Name) and t.id == tval for t in (a.targets if isinstance(a, ast.Assign) else [a.target])) and getattr(a, "value", None) is not None]
@@ -238,6 +307,10 @@ def run(ctx):
         ctx.violation("Z3", R.parse, "token-value-undefined", "%s is not initialised to b'' before the token loop: a lexical error on the first "
                       "token makes the handler fail" % tval, node=fors[0])
 
+    return _z4(ctx, R, scan, loops, yields, fors)
+
+
+def _z4(ctx, R, scan, loops, yields, fors):
     # ---- Z4 ----------------------------------------------------------------------
     ctx.rule("Z4", "the token stream is consumed lazily")
     it = fors[0].iter
@@ -251,7 +324,9 @@ def run(ctx):
         if isinstance(c, ast.Call) and call_name(c) in ("list", "tuple", "sorted", "reversed") and any("scan" in norm(a) for a in c.args):
             ctx.violation("Z4", R.parse, "eager-tokens", "%s materialises the token stream" % norm(c)[:50], node=c)
     # the generator itself must not buffer: scan yields inside its loop
-    if all(contains(loops[0], y.ast) for y in yields):
+    if not loops:
+        ctx.notice("Z4", "Lexer.scan has no while loop of its own; laziness is that of the generator it delegates to")
+    elif all(contains(loops[0], y.ast) for y in yields):
         ctx.holds("Z4", "Lexer.scan yields inside its scanning loop (one token per step)")
     else:
         ctx.violation("Z4", scan, "yield-after-loop", "Lexer.scan yields outside the scanning loop", node=scan.node)
@@ -262,6 +337,258 @@ def run(ctx):
     # (E2-E4 of C07) must sit at the lookup / at the tag, not at a later token
     from .c07 import gates
     gates(ctx, R)
+
+
+LEXER_SAMPLES = [
+    b"",
+    b"keep;\nstop;",
+    b"# c\r\nif true\r\n{\r\n  keep;\r\n}\r\n",
+    b'if hasflag "a"\n{ stop; }\n$$$',
+    b'/* m\n l */ keep ;\n\n"caf\xc3\xa9" :x [1K,\n2]',
+    b"keep;$$$",
+    b"a /* x\ny */$ z",
+    b"\n\n  \xc3\xa9\xc3\xa9 keep",
+    b'x text:\nhello\n.\n;\nfoo {\n{',
+    b'"a"\xc3\xa9',
+]
+_WS = b" \t\r\n\x0b\x0c"
+
+
+def lexer_eval(ctx, R):
+    """Z1/Z2 by evaluation: Lexer.__init__ and Lexer.scan interpreted (finite-domain interpreter, stdlib regex engine on the code's
+    constant token patterns) over sample texts, with a consumer that - like the parser's replay - may ask for a one-byte token once
+    more.  At every yield, and where a lexical error is raised, curlineno() / curcolno() interpreted in the lexer's state of that moment
+    must give the line / 1-based byte column of the first byte of the token (of the byte sequence that is no token).
+    -> ("ok", n) | ("bad", text, what) | None when the interpreter cannot follow the code."""
+    from sa import fd
+    from sa.consteval import Evaluator, TOP
+    from sa.util import module_resolver
+    L = R.Lexer
+    init, scan = L.methods.get("__init__"), R.scan
+    ln, col = L.methods.get("curlineno"), L.methods.get("curcolno")
+    if init is None or ln is None or col is None or len(init.params) != 2 or len(scan.params) != 2:
+        return None
+    lr = Evaluator(ctx.program, R.pmod, R.Parser).lookup("lrules")
+    if lr is TOP:
+        return None
+    resolve = module_resolver(ctx.program, R.pmod)
+
+    def oracle(interp, e, name, recv, args, kw, st):
+        if name and name.startswith("self.") and name[5:] in L.methods and L.methods[name[5:]].node is not interp.f:
+            return fd.Inline(L.methods[name[5:]])
+        if name and name.startswith("self.") and mangle(L.name, name[5:]) in L.methods:
+            return fd.Inline(L.methods[mangle(L.name, name[5:])])
+        return None
+    try:
+        ps = fd.Interp(init.node, L.name, oracle, resolve=resolve, loop_unroll=len(lr) + 2).run({init.params[1]: fd.Const(list(lr))})
+    except fd.TooManyPaths:
+        return None
+    if len(ps) != 1 or ps[0].kind != "return":
+        return None
+    sn = init.params[0]
+    base = {k: v for k, v in ps[0].env.items() if k.startswith(sn + ".")}
+    # what the parser does to the lexer to have a token delivered again (rule X2 bounds it; here it is replayed)
+    rewind = None
+    for f in R.Parser.methods.values():
+        for n in walk_no_nested(f.node):
+            if isinstance(n, ast.AugAssign) and isinstance(n.op, ast.Sub) and isinstance(n.target, ast.Attribute) and "lexer" in norm(n.target.value) \
+                    and isinstance(n.value, ast.Constant) and isinstance(n.value.value, int):
+                rewind = ("sub", n.target.attr, n.value.value)
+            elif isinstance(n, ast.Expr) and isinstance(n.value, ast.Call) and isinstance(n.value.func, ast.Attribute) \
+                    and "lexer" in norm(n.value.func.value) and n.value.func.attr in L.methods and not n.value.args and not n.value.keywords \
+                    and n.value.func.attr not in ("scan", "curlineno", "curcolno"):
+                rewind = ("call", n.value.func.attr)
+
+    def position(snap):
+        out = []
+        for f in (ln, col):
+            try:
+                r = fd.Interp(f.node, L.name, oracle, resolve=resolve, loop_unroll=80).run(dict(snap))
+            except fd.TooManyPaths:
+                return None
+            if len(r) != 1 or r[0].kind != "return" or not isinstance(r[0].value, fd.Const) or not isinstance(r[0].value.v, int):
+                return None
+            out.append(r[0].value.v)
+        return tuple(out)
+
+    def hook(interp, v, st):
+        if interp.depth or rewind is None:
+            return [st]
+        tv = v.items[1] if isinstance(v, fd.Tup) and len(v.items) == 2 else fd.Const(v.v[1]) if isinstance(v, fd.Const) and isinstance(
+            v.v, tuple) and len(v.v) == 2 else None
+        if not (isinstance(tv, fd.Const) and tv.v == b"{") or any(x[0] == "rewind" for x in st.events):
+            return [st]
+        s2 = st.copy()
+        s2.events.append(("rewind",))
+        if rewind[0] == "sub":
+            k = "%s.%s" % (sn, rewind[1])
+            if not (isinstance(s2.env.get(k), fd.Const) and isinstance(s2.env[k].v, int)):
+                return [st]
+            s2.env[k] = fd.Const(s2.env[k].v - rewind[2])
+            return [st, s2]
+        m = L.methods[rewind[1]]
+        rs = fd.Interp(m.node, L.name, oracle, resolve=resolve).run({}, s2)
+        if len(rs) != 1 or rs[0].kind != "return":
+            return [st]
+        s3 = fd.State(rs[0].env, rs[0].events, rs[0].facts)
+        return [st, s3]
+
+    n = 0
+    moments = []  # (text, lexer state, token value or None for a lexical error, offset of the token) on the paths without replay
+    for text in LEXER_SAMPLES:
+        it = fd.Interp(scan.node, L.name, oracle, resolve=resolve, loop_unroll=4 * len(text) + 8, max_paths=200)
+        it.yield_hook = hook
+        env = dict(base)
+        env[scan.params[1]] = fd.Const(text)
+        try:
+            paths = it.run(env)
+        except fd.TooManyPaths:
+            return None
+        if not paths:
+            return None
+        for p in paths:
+            cur = 0
+            last = None
+            evs = [x for x in p.events if x[0] in ("yield", "rewind")]
+            for i, ev in enumerate(evs):
+                if ev[0] == "rewind":
+                    if last is not None:
+                        cur = last
+                    continue
+                v = fd_concrete(ev[1])
+                if not (isinstance(v, tuple) and len(v) == 2 and isinstance(v[1], bytes)):
+                    return None
+                while cur < len(text) and text[cur] in _WS:
+                    cur += 1
+                if not text.startswith(v[1], cur):
+                    return ("bad", text, "the lexer yields %r where the text continues with %r" % (v[1], text[cur:cur + 12]))
+                got = position(ev[2])
+                if got is None:
+                    return None
+                want = (text.count(b"\n", 0, cur) + 1, cur - text.rfind(b"\n", 0, cur))
+                n += 1
+                if got != want:
+                    rw = " (after the parser asked for `{` once more)" if any(x[0] == "rewind" for x in evs[:i]) else ""
+                    return ("bad", text, "while the token %r (offset %d) is handled%s, curlineno() / curcolno() give %r; the token starts at line %d, "
+                                         "column %d" % (v[1], cur, rw, got, want[0], want[1]))
+                if not any(x[0] == "rewind" for x in evs):
+                    moments.append((text, ev[2], v[1], cur))
+                last = cur
+                cur += len(v[1])
+            if p.kind == "raise":
+                while cur < len(text) and text[cur] in _WS:
+                    cur += 1
+                snap = {k: x for k, x in p.env.items() if k.startswith(scan.params[0] + ".")}
+                got = position(snap)
+                if got is None:
+                    return None
+                want = (text.count(b"\n", 0, cur) + 1, cur - text.rfind(b"\n", 0, cur))
+                n += 1
+                if not any(x[0] == "rewind" for x in evs):
+                    moments.append((text, snap, None, cur))
+                if got != want:
+                    return ("bad", text, "where the byte sequence %r (offset %d) is rejected as no token, curlineno() / curcolno() give %r; it starts at "
+                                         "line %d, column %d" % (text[cur:cur + 8], cur, got, want[0], want[1]))
+            elif p.kind == "return":
+                while cur < len(text) and text[cur] in _WS:
+                    cur += 1
+                if cur != len(text):
+                    return ("bad", text, "the lexer stops at offset %d of %d without an error" % (cur, len(text)))
+    return ("ok", n, moments, oracle, resolve)
+
+
+def handler_eval(ctx, R, h, fors, lev):
+    """Z3 by evaluation: the funnel's handler interpreted in each (text, lexer state, current token) moment collected by lexer_eval.
+    error_pos must be (line, 1-based byte column, byte length) of the token (length free for lexical errors), and the text of the error
+    must start with `line <that line>:` when it can be followed.  -> ("ok", n) | ("bad", what) | None"""
+    from sa import fd
+    L = R.Lexer
+    moments, loracle, resolve = lev[2], lev[3], lev[4]
+    parse = R.parse
+    sn = parse.params[0]
+    it_ = fors[0].iter
+    targ = it_.args[0].id if isinstance(it_, ast.Call) and it_.args and isinstance(it_.args[0], ast.Name) else None
+    tgt = fors[0].target
+    if targ is None or not (isinstance(tgt, ast.Tuple) and len(tgt.elts) == 2 and all(isinstance(x, ast.Name) for x in tgt.elts)):
+        return None
+    tname, tval = tgt.elts[0].id, tgt.elts[1].id
+    holders = token_holders(fors[0], tval)
+    lex_attr = it_.func.value.attr if isinstance(it_.func, ast.Attribute) and isinstance(it_.func.value, ast.Attribute) else None
+    if lex_attr is None:
+        return None
+    lsn = R.scan.params[0]
+    synth = ast.FunctionDef(name="__handler__", args=ast.arguments(posonlyargs=[], args=[ast.arg(arg=sn)], kwonlyargs=[], kw_defaults=[], defaults=[]),
+                            body=list(h.body), decorator_list=[], returns=None, type_comment=None, type_params=[])
+    ast.copy_location(synth, h)
+
+    def oracle(interp, e, name, recv, args, kw, st):
+        if isinstance(recv, fd.Const) and isinstance(recv.v, fd.Rec) and recv.v.cls == "Lexer" and name in L.methods:
+            env = {"%s.%s" % (L.methods[name].params[0], k): (x if isinstance(x, (fd.Const, fd.Unknown, fd.Tup)) else fd.Const(x))
+                   for k, x in recv.v.fields.items()}
+            rs = fd.Interp(L.methods[name].node, L.name, loracle, resolve=resolve, loop_unroll=80).run(env)
+            if len(rs) == 1 and rs[0].kind == "return":
+                return [(rs[0].value, None)]
+            return None
+        if name and name.startswith("self.") and ("print" in name or "debug" in name):
+            return [(fd.Const(None), None)]
+        if name and name.startswith("self.") and (name[5:] in R.Parser.methods or mangle(R.Parser.name, name[5:]) in R.Parser.methods):
+            m = R.Parser.methods.get(name[5:]) or R.Parser.methods[mangle(R.Parser.name, name[5:])]
+            return fd.Inline(m)
+        return None
+    n = 0
+    for text, snap, token, start in moments:
+        if not all(isinstance(v, fd.Const) for v in snap.values()):
+            return None
+        rec = fd.Rec("Lexer", **{k[len(lsn) + 1:]: v.v for k, v in snap.items()})
+        env = {"%s.%s" % (sn, lex_attr): fd.Const(rec), targ: fd.Const(text), tname: fd.Const("identifier"),
+               tval: fd.Const(token if token is not None else b"")}
+        for a in holders:
+            env["%s.%s" % (sn, a)] = fd.Const(token if token is not None else b"")
+        if h.name:
+            env[h.name] = fd.Const("MSG")
+        try:
+            ps = fd.Interp(synth, R.Parser.name, oracle, resolve=resolve, loop_unroll=80, max_paths=50).run(env)
+        except fd.TooManyPaths:
+            return None
+        ps = [p for p in ps if p.kind == "return"] if len(ps) > 1 and all(p.kind in ("return", "raise") for p in ps) and sum(
+            p.kind == "return" for p in ps) == 1 else ps
+        if len(ps) != 1 or ps[0].kind != "return":
+            return None
+        got = fd_concrete(ps[0].env.get("%s.error_pos" % sn))
+        if not (isinstance(got, tuple) and len(got) == 3):
+            return None
+        line, colno = text.count(b"\n", 0, start) + 1, start - text.rfind(b"\n", 0, start)
+        n += 1
+        what = "the token %r" % token if token is not None else "the byte sequence %r that is no token" % text[start:start + 8]
+        if got[:2] != (line, colno) or (token is not None and got[2] != len(token)):
+            return ("bad", "for %s at offset %d of %r the handler stores error_pos = %r; the token is at line %d, column %d%s"
+                    % (what, start, text, got, line, colno, ", %d bytes long" % len(token) if token is not None else ""))
+        msg = fd_concrete(ps[0].env.get("%s.error" % sn))
+        if isinstance(msg, (str, bytes)):
+            ms = msg.decode("utf-8", "replace") if isinstance(msg, bytes) else msg
+            if not ms.startswith("line %d:" % line):
+                return ("bad", "for %s at offset %d of %r the error text is %r; the token is on line %d" % (what, start, text, ms[:40], line))
+    return ("ok", n)
+
+
+def token_holders(loop, tval):
+    """attributes that the token loop sets to the current token value (`self.__curtoken = tvalue`)"""
+    out = {}
+    for a in ast.walk(loop):
+        if isinstance(a, ast.Assign) and isinstance(a.value, ast.Name) and a.value.id == tval:
+            for t in a.targets:
+                if isinstance(t, ast.Attribute) and isinstance(t.value, ast.Name):
+                    out.setdefault(t.attr, []).append(a)
+    return out
+
+
+def fd_concrete(v):
+    from sa import fd
+    if isinstance(v, fd.Const):
+        return v.v
+    if isinstance(v, fd.Tup) and all(isinstance(x, fd.Const) for x in v.items):
+        return tuple(x.v for x in v.items)
+    return None
 
 
 def z6(ctx, R):
